@@ -2296,6 +2296,16 @@ ok:
         /* The first hello announced TLS_FALLBACK_SCSV: so does this one
            (the writer emits it from the session flag, the size must agree) */
         options.fallbackScsv = ssl->extFlags.req_fallback_scsv;
+        if (ssl->tlsClientCipherSuitesLen > 0)
+        {
+            /* The complete list of the first hello (ssl->cipherSpec keeps
+               at most 8 entries of it) */
+            rc = matrixSslEncodeClientHello(
+                    ssl, out, ssl->tlsClientCipherSuites,
+                    ssl->tlsClientCipherSuitesLen, requiredLen, NULL,
+                    &options);
+            break;
+        }
         rc = matrixSslEncodeClientHello(
                 ssl, out, ssl->cipherSpec,
                 ssl->cipherSpecLen, requiredLen, NULL, &options);
